@@ -25,13 +25,14 @@ class ICase:
     pass
 
 
-def gen(rng):
+def gen(rng, idx=None):
     c = ICase()
-    sk = rng.choice(list(STRUCTS))
+    pk = gp.Picker(rng, idx)
+    sk = pk.choice(list(STRUCTS))
     decl, _, self_tmpl = STRUCTS[sk]
     tr = rng.choice(['D', 'D2'])
     consts = rng.sample(['12', '14'], rng.choice([1, 2])) if '{C}' in self_tmpl else [None]
-    generic_const = '{C}' in self_tmpl and rng.random() < 0.3
+    generic_const = '{C}' in self_tmpl and pk.choice([False, True, False])
     blocks = []
     for fi, cval in enumerate(consts):
         groups = rng.sample(gp.GROUPS, rng.choice([2, 2, 3]))
@@ -188,7 +189,7 @@ RULE = 'generated inherent-mode invocations over local generic types (type / lif
 
 
 def core(rng, n, cases=None):
-    cases = cases if cases is not None else [gen(rng) for _ in range(n)]
+    cases = cases if cases is not None else [gen(rng, idx=i) for i in range(n)]
     n = len(cases)
     corpus_violations = []
     import os
